@@ -49,3 +49,69 @@ pub fn split_sub(domain: &str) -> (String, Option<String>) {
 pub fn valid_ip(addr: &std::net::IpAddr, if_addr: &if_addrs::IfAddr) -> bool {
     valid_ip_on_intf(addr, if_addr)
 }
+
+/// `ServiceInfo::get_addrs_on_my_intf_v4` / `_v6` for an interface holding `if_addrs`.
+pub fn addrs_on_intf(info: &ServiceInfo, if_addrs: &[IfAddr], v4: bool) -> Vec<IpAddr> {
+    let my_intf = MyIntf {
+        name: "verif0".to_string(),
+        index: 1,
+        addrs: if_addrs.iter().cloned().collect(),
+    };
+    if v4 {
+        info.get_addrs_on_my_intf_v4(&my_intf)
+    } else {
+        info.get_addrs_on_my_intf_v6(&my_intf)
+    }
+}
+
+/// Handle over a `Probe` (simultaneous-probe tiebreaking, probe timing).
+pub struct ProbeHandle(Probe);
+
+impl ProbeHandle {
+    /// `Probe::new(start_time)` followed by `insert_record` for each of `records`, in order.
+    pub fn new(start_time: u64, records: &[crate::verif::parser::RecDesc]) -> Option<Self> {
+        let mut probe = Probe::new(start_time);
+        for d in records {
+            probe.insert_record(crate::verif::parser::build_record(d)?);
+        }
+        Some(ProbeHandle(probe))
+    }
+
+    /// The probe's records in the order `insert_record` left them.
+    pub fn records(&self) -> Vec<crate::verif::parser::RecView> {
+        self.0
+            .records
+            .iter()
+            .map(|r| crate::verif::parser::view_record(r.as_ref()))
+            .collect()
+    }
+
+    /// `(start_time, next_send)`
+    pub fn times(&self) -> (u64, u64) {
+        (self.0.start_time, self.0.next_send)
+    }
+
+    /// `Probe::tiebreaking` against the message decoded from `packet` by `DnsIncoming::new`
+    /// (the virtual clock supplies `now`).  `false` if the packet does not decode.
+    pub fn tiebreaking(&mut self, packet: &[u8], probe_name: &str) -> bool {
+        let intf = InterfaceId {
+            name: "verif0".to_string(),
+            index: 1,
+        };
+        match DnsIncoming::new(packet.to_vec(), intf) {
+            Ok(msg) => {
+                self.0.tiebreaking(&msg, probe_name);
+                true
+            }
+            Err(_) => false,
+        }
+    }
+
+    pub fn update_next_send(&mut self, now: u64) {
+        self.0.update_next_send(now)
+    }
+
+    pub fn expired(&self, now: u64) -> bool {
+        self.0.expired(now)
+    }
+}
